@@ -179,4 +179,22 @@ CLAIMS["C20"] = {
     "technique": "source-to-Lean translation of the IR serializers + Lean 4 proofs over a generic IR model + differential correspondence on final type ids",
 }
 
+CLAIMS["C19"] = {
+    "text": "Machine-checked proof (Lean 4) over executable models of the three discoverer entry state machines (any object, specific "
+            "object with services, bare object) with every debug_assert! of that code as an explicit failure, and of the bus as the "
+            "fold of its events: for ALL admissible histories (creations of what does not exist, destructions of what exists, services "
+            "inside their object's lifetime) no assertion can fail and every entry ends as exactly the view of the final bus state "
+            "(entry_converges); that view is 'the existing objects that match and have every required service, with current object "
+            "and service cookies' for each entry kind (bare_entry_view, services_entry_view, any_entry_view); every emitted event is the "
+            "transition of what the entry reports for one object and nothing else changes in that step (events_are_transitions); new "
+            "and reset entries are the view of the empty bus (new_entries_related). Tie: the real Discoverer on a real client and broker "
+            "vs. the model, event by event and found-set by found-set, plus an implementation-only convergence oracle at the end of "
+            "every scenario.",
+    "note": "Trusted: Lean kernel (+propext, Classical.choice, Quot.sound), the harness. Partial: the lifetime and wait-for-object clauses "
+            "(aldrin/src/lifetime.rs) are not modelled; that the bus listener delivers an admissible history to the entries (filters, "
+            "current enumeration on restart, draining on stop) is tied by the correspondence runs, not proved; async scheduling is "
+            "sampled (current-thread runtime, operations awaited one by one).",
+    "design_ref": "DESIGN.md section 6 C19, section 10",
+}
+
 NOT_APPLICABLE = {}
